@@ -11,7 +11,9 @@ CONSTANTS
   Faults = @@FAULTS@@
   Replace = @@REPL@@
   ExtCloseOn = @@EXT@@
-  DevLimiter = TRUE
+  DevLimiter = @@DEVLIM@@
+  DevNilFwd = TRUE
+  DevStaleSrc = TRUE
   Gen = TRUE
   Emit = TRUE
 INIT Init
